@@ -1,5 +1,5 @@
 """C06 - every candidate plate is scored once; the minimum-score allowed plate is chosen."""
-from .common import cli_main, concrete_screen
+from .common import cli_main, cli_argv, concrete_screen
 
 PROPERTY = "C06"
 LEVEL = "model_checking"
@@ -8,7 +8,7 @@ FUNCTIONS = [
     "batchie.scoring.main.ChunkedScoresHolder.add_score/get_score/combine/concat/save_h5/load_h5/plate_id_with_minimum_score",
     "batchie.data.filter_dataset_to_unique_treatments", "batchie.common.select_unique_zipped_numpy_arrays",
     "batchie.data.ScreenSubset.combine / concat", "batchie.scoring.size.SizeScorer.score", "batchie.scoring.rand.RandomScorer.score",
-    "batchie.cli.calculate_scores.main / batchie.cli.select_next_plate.main (argument parsers stubbed)",
+    "batchie.cli.calculate_scores.main / batchie.cli.select_next_plate.main (through get_parser / get_args with sys.argv set; class lookup by name answered from the loaded modules)",
     "batchie.policies.k_per_sample.KPerSamplePlatePolicy.filter_eligible_plates",
 ]
 BOUNDS = {
@@ -56,6 +56,7 @@ def configs(tier, seed):
             out.append(dict(name="select policy k=%d P=%d" % (k, P), h="select", P=P, policy=k, neginf=False))
     for P in ((3,) if q else (3, 4)):
         out.append(dict(name="cli P=%d" % P, h="cli", P=P))
+        out.append(dict(name="cli P=%d, own argument parsers" % P, h="cli", P=P, argv=True))
     out.append(dict(name="holder", h="holder"))
     out.append(dict(name="300 plates (ids past 255)", h="many", P=300, chunks=2 if q else 3))
     if not q:
@@ -320,14 +321,24 @@ def h_cli(ctx, cfg):
     dm.save(dfn)
     n_chunks = int(ctx.int("n_chunks", 1, 2))
     files = []
+    argv = cfg.get("argv", False)  # through the commands' own argument parsers (ids on the command line) or with them stubbed
     for c in range(n_chunks):
         out = ctx.tmp("sc_%d.h5" % c)
-        cli_main(ctx, "batchie.cli.calculate_scores", data=sfn, thetas=[tfn], distance_matrix=[dfn], scorer_cls=size.SizeScorer,
-                 scorer_params={}, n_chunks=n_chunks, chunk_index=c, batch_plate_ids=list(batch), output=out, seed=0)
+        if argv:
+            cli_argv(ctx, "batchie.cli.calculate_scores", ["--data", sfn, "--thetas", tfn, "--distance-matrix", dfn, "--scorer", "SizeScorer",
+                                                           "--n-chunks", n_chunks, "--chunk-index", c, "--output", out, "--seed", 3]
+                     + (["--batch-plate-ids"] + list(batch) if batch else []))
+        else:
+            cli_main(ctx, "batchie.cli.calculate_scores", data=sfn, thetas=[tfn], distance_matrix=[dfn], scorer_cls=size.SizeScorer,
+                     scorer_params={}, n_chunks=n_chunks, chunk_index=c, batch_plate_ids=list(batch), output=out, seed=0)
         files.append(out)
     sel = ctx.tmp("selected_plate")
-    cli_main(ctx, "batchie.cli.select_next_plate", data=sfn, policy=None, policy_cls=None, policy_params={}, scores=files[::-1],
-             batch_plate_id=list(batch), output=sel, seed=0)
+    if argv:
+        cli_argv(ctx, "batchie.cli.select_next_plate", ["--data", sfn, "--scores"] + files[::-1] + ["--output", sel]
+                 + (["--batch-plate-id"] + list(batch) if batch else []))
+    else:
+        cli_main(ctx, "batchie.cli.select_next_plate", data=sfn, policy=None, policy_cls=None, policy_params={}, scores=files[::-1],
+                 batch_plate_id=list(batch), output=sel, seed=0)
     got = int(ctx.read_text(sel).strip())
     cand = sorted(p for p in rows_of if p not in obs_ids and p not in batch)
     if not cand:
